@@ -33,17 +33,17 @@ CHECKS = {
  "C19": dict(
    engine="simkit+h-sandbox",
    category="exploration",
-   text="Seeded deterministic simulation of the real alloc.rs: operation histories (alloc, alloc_zeroed, realloc up/down, dealloc; boundary sizes around the limit; four limits) against a reference ledger, sequentially with checks after every operation (the first runs of a batch enumerate all histories up to length 4 over 22 operations; the rest are random) and concurrently from 2..16 controlled threads where every atomic operation is a scheduling point under seeded policies; the parent allocator is made to refuse with a seeded probability. Invariants: conservation of tracked usage, limit never exceeded by a success, refusal is a no-op on usage and block contents, peak never below the high-water mark, zeroing and prefix preservation. Sampling, not enumeration.",
+   text="Seeded deterministic simulation of the real alloc.rs: operation histories (alloc, alloc_zeroed, realloc up/down, dealloc; boundary sizes around the limit and close to isize::MAX; four ordinary limits, plus limits beyond any machine: usize::MAX, isize::MAX, about 2^63 and 2^62) against a reference ledger, sequentially with checks after every operation (the first runs of a batch enumerate all histories up to length 4 over 22 operations; the rest are random) and concurrently from 2..16 controlled threads where every atomic operation is a scheduling point under seeded policies; the parent allocator is made to refuse with a seeded probability. Invariants: conservation of tracked usage, limit never exceeded by a success, refusal is a no-op on usage and block contents, peak never below the high-water mark, zeroing and prefix preservation, no block released while its owner holds it (the parent stand-in keeps a registry and a quarantine). One known finding is listed in known_findings.txt (peak under-reported when requests that fit a limit of 2^60 or more wrap the counter) and printed as KNOWN-FINDING. Sampling, not enumeration.",
    design_ref="DESIGN.md 5.2",
    note="Trusted: sequentially consistent interleavings only (one thread runs at a time); reset_max/get_max only at quiescent points; conservative refusals are allowed by the one-directional 'only if'.",
    technique="deterministic simulation with fault injection: controlled-thread scheduler over atomic operations + failing parent allocator, reference ledger oracle, minimised replay"),
  "C20": dict(
    engine="simkit+h-cache",
    category="fault_enumeration",
-   text="The real cli/src/config.rs runs over an in-memory POSIX-like file system, a virtual clock and a scripted HTTP transfer. Seeded histories of process runs (start-up, full load(), --fetch-currency) from every prior cache state, every server behaviour (complete, cut after k bytes by close or reset, stall, 3xx/4xx/5xx, refused, DNS), file-system errors at chosen calls and clock jumps; for most histories the kill point is swept over every file-system/transfer step of one run (and inside each write). After every run the cache bytes must be the previous bytes or the complete body of a 200 response that completed; failed refreshes must fall back to the stale cache and still start; completed refreshes must be visible to this and the next start; every run terminates within the transfer timeout.",
+   text="The real cli/src/config.rs runs over an in-memory POSIX-like file system, a virtual clock and a scripted HTTP transfer. Seeded histories of process runs (start-up, full load(), --fetch-currency) from every prior cache state, every server behaviour (complete, cut after k bytes by close or reset, stall, 3xx/4xx/5xx, refused, DNS), file-system errors at chosen calls and clock jumps; for most histories the kill point is swept over every file-system/transfer step of one run (and inside each write). After every run the cache bytes must be the previous bytes or the complete body of a 200 response that completed; failed refreshes must fall back to the stale cache and still start; completed refreshes must be visible to this and the next start; every run terminates within the transfer timeout. Every state the cache path goes through during a run is held to the same previous-or-complete-new rule (what a reader or a kill at that instant finds). One history in six adds a second rink process on the same cache directory, both running the real code on their own threads one at a time with a seeded switch decision before every file-system/transfer step (advisory file locks included).",
    design_ref="DESIGN.md 5.3",
-   note="Trusted: the stand-ins for std::fs/curl/tempfile/dirs (behaviours listed in DESIGN.md 2.4/2.8); crash = process kill (completed operations persist, rename atomic), not power loss; single rink process.",
-   technique="deterministic simulation with fault injection: crash-point sweep over FS/transfer steps of seeded histories, scripted server faults, FS error injection, history oracle on the cache bytes"),
+   note="Trusted: the stand-ins for std::fs/curl/tempfile/dirs (behaviours listed in DESIGN.md 2.4/2.8); crash = process kill (completed operations persist, rename atomic), not power loss; one file-system or transfer step is atomic with respect to a second process.",
+   technique="deterministic simulation with fault injection: crash-point sweep over FS/transfer steps of seeded histories, scripted server faults, FS error injection, seeded interleaving of two processes on one disk, history and every-instant oracle on the cache bytes"),
  "C15": dict(
    engine="simkit+h-history",
    category="exploration",
